@@ -265,6 +265,35 @@ def emit_save(tree):
   ])
 
 
+# ---- determinism recogniser (wave 5, item 4): nothing in this code may depend on the process (hash seed, object
+# identity, clock, environment, pid, unseeded random numbers); fail-closed
+
+def _forbid_process_dependence(tree, time_ok_in=()):
+  """Raises Unsupported on hash(), id(), uuid, random, np.random, os.environ, os.getpid anywhere, and on any use of
+  `time` outside the functions listed in time_ok_in."""
+  def scan(node, fn):
+    for ch in ast.iter_child_nodes(node):
+      f = ch.name if isinstance(ch, ast.FunctionDef) else fn
+      if isinstance(ch, ast.Call) and isinstance(ch.func, ast.Name) and ch.func.id in ('hash', 'id'):
+        raise Unsupported(f'{ch.func.id}() in {fn or "module"}: depends on the process')
+      if isinstance(ch, ast.Attribute):
+        try:
+          d = dotted(ch)
+        except Unsupported:
+          d = ''
+        if d.startswith(('uuid.', 'random.', 'np.random.', 'numpy.random.', 'os.environ', 'os.getpid', 'secrets.')):
+          raise Unsupported(f'{d} in {fn or "module"}: depends on the process')
+        if d.startswith('time.') and fn not in time_ok_in:
+          raise Unsupported(f'{d} in {fn or "module"}')
+      scan(ch, f)
+  scan(tree, None)
+
+
+def emit_deterministic(tree):
+  _forbid_process_dependence(tree)
+  return 'Definition checkpoint_code_is_process_independent : bool := true.'
+
+
 MODULES = {
     'Gen_checkpoint': {
         'src': SRC,
@@ -274,6 +303,7 @@ MODULES = {
             emit_get_checkpoint_paths,
             emit_load_latest,
             emit_save,
+            emit_deterministic,
         ],
     },
 }
